@@ -155,7 +155,7 @@ Section ReduceBW.
               match n1, gs n1 with
               | L s, Some so =>
                   let v := 95%N :: s in
-                  if is_piped s || declared v then Some []
+                  if is_piped s || (match s with c :: _ => N.eqb c cDQ || N.eqb c cSEMI | [] => false end) || declared v then Some []
                   else Some (map (reduce_bw_one n1 so v w)
                                  (filter (fun b => Z.ltb 0 b && Z.ltb b w) (sorted_set [w - 1; w / 2; 2; 1]%Z)))
               | _, _ => Some []
@@ -263,7 +263,7 @@ Definition rw_str_contains (declared : str -> bool) (e : sexp) : option (list gs
   if is_op e "str.contains" then
     match e with
     | T [_; L v; x] =>
-        if is_const_leaf v || is_piped v then Some []
+        if is_const_leaf v || is_piped v || (match v with c :: _ => N.eqb c cSEMI | [] => false end) then Some []
         else
           let k1 := v ++ lit "_prefix" in
           let k2 := v ++ lit "_suffix" in
